@@ -32,6 +32,9 @@ type Run struct {
 	File     bool   `json:"file_mode"`
 	SQLTable bool   `json:"sql_created"`
 	Seed     int64  `json:"seed"`
+	Pad      int    `json:"pad,omitempty"`     // bytes of an extra varchar column: the table spans many pages
+	KB       int    `json:"kb,omitempty"`      // pool size (default 800 KB = 200 frames); small values make the clients evict each other's pages
+	NoIdx    bool   `json:"no_idx,omitempty"`  // no index at all (no index pages pinned for good: the pool can be very small)
 	SeqPct   int    `json:"seq_pct,omitempty"` // share of group statements whose predicate carries "OR id = 7777777" (never true): forces the sequential-scan path
 	// History of a failing run (for replay by the history checker)
 	History []HOp `json:"history,omitempty"`
@@ -66,18 +69,34 @@ func setup(r *Run) (*dbh.DB, string, *vf.Failure) {
 	dbh.NoBackground(true)
 	dir := ""
 	var db *dbh.DB
+	kb := 800
+	if r.KB > 0 {
+		kb = r.KB
+	}
 	if r.File {
 		dir = dbh.TempDir("c12")
-		db = dbh.Open(dir+"/db", 800, true)
+		db = dbh.Open(dir+"/db", kb, true)
 	} else {
-		db = dbh.Open("c12", 800, false)
+		db = dbh.Open("c12", kb, false)
 	}
 	def := &dbh.TableDef{Name: "t", SQL: r.SQLTable, Cols: []dbh.Col{{Name: "id", T: "i", Idx: dbh.IdxSkip}, {Name: "g1", T: "i", Idx: dbh.IdxSkip}, {Name: "g2", T: "i", Idx: dbh.IdxSkip}, {Name: "v", T: "i", Idx: dbh.IdxNone}}}
+	if r.Pad > 0 {
+		def.Cols = append(def.Cols, dbh.Col{Name: "p", T: "s", Idx: dbh.IdxNone})
+	}
+	if r.NoIdx {
+		for i := range def.Cols {
+			def.Cols[i].Idx = dbh.IdxNone
+		}
+	}
 	if err := db.CreateTable(def); err != nil {
 		return db, dir, vf.Failf("create-error", "%v", err)
 	}
 	for i := 0; i < r.Rows; i++ {
-		if _, err := db.FrontDoor(fmt.Sprintf("INSERT INTO t(id, g1, g2, v) VALUES (%d, %d, %d, 0);", i, i%2, i/2)); err != nil {
+		q := fmt.Sprintf("INSERT INTO t(id, g1, g2, v) VALUES (%d, %d, %d, 0);", i, i%2, i/2)
+		if r.Pad > 0 {
+			q = fmt.Sprintf("INSERT INTO t(id, g1, g2, v, p) VALUES (%d, %d, %d, 0, '%s');", i, i%2, i/2, strings.Repeat("p", r.Pad))
+		}
+		if _, err := db.FrontDoor(q); err != nil {
 			return db, dir, vf.Failf("load-error", "%v", err)
 		}
 	}
@@ -426,7 +445,7 @@ func countKind(h []HOp, k string) int {
 	return n
 }
 
-const rule = "Case = one run of 2-32 (every fourth run of families A/C: 48-96, i.e. more callers than the request manager's 24 worker slots) client goroutines calling SamehadaDB.ExecuteSQL concurrently (GOMAXPROCS 2/4/16, in-memory and file mode, SQL- and catalog-created table t(id,g1,g2,v) with 4-60 rows and overlapping groupings g1 = id%2, g2 = id/2): family A (4-32 clients, disjoint groups) = multi-row UPDATE t SET v=<unique> WHERE g1=<x> and SELECT id,v WHERE g1=<x> (in half of the runs 50-100% of these statements carry a never-true OR branch, which forces the sequential-scan path instead of the index range scan) -> inside one answer all rows of a group carry one value and an overwritten value never comes back to the same client; family B (4-8 clients, overlapping groupings g1/g2, 8-15 calls each) -> the recorded history (call/return stamps from a shared logical clock) must be linearizable against a multi-register in which an update writes its whole group at once (so a reader seeing a group half-updated, a lost or doubled update, or a stale read after return all fail), checked with porcupine; family C = concurrent INSERTs of unique ids and single-row updates on 2-3 hot rows (internal abort/retry frequent) -> every id exactly once, every row's final value written by an update of that row. Every reply must have its own statement's shape (column count, ids of the requested group). A watchdog reports a run in which no call completed for 120 s. Non-trivial = a run with at least two calls overlapping in real time, one of them a write."
+const rule = "Case = one run of 2-32 (every fourth run of families A/C: 48-96, i.e. more callers than the request manager's 24 worker slots) client goroutines calling SamehadaDB.ExecuteSQL concurrently (a quarter of the family-A runs use a 600-row table of padded rows in a pool that cannot hold it, through sequential scans only: buffer pressure) (GOMAXPROCS 2/4/16, in-memory and file mode, SQL- and catalog-created table t(id,g1,g2,v) with 4-60 rows and overlapping groupings g1 = id%2, g2 = id/2): family A (4-32 clients, disjoint groups) = multi-row UPDATE t SET v=<unique> WHERE g1=<x> and SELECT id,v WHERE g1=<x> (in half of the runs 50-100% of these statements carry a never-true OR branch, which forces the sequential-scan path instead of the index range scan) -> inside one answer all rows of a group carry one value and an overwritten value never comes back to the same client; family B (4-8 clients, overlapping groupings g1/g2, 8-15 calls each) -> the recorded history (call/return stamps from a shared logical clock) must be linearizable against a multi-register in which an update writes its whole group at once (so a reader seeing a group half-updated, a lost or doubled update, or a stale read after return all fail), checked with porcupine; family C = concurrent INSERTs of unique ids and single-row updates on 2-3 hot rows (internal abort/retry frequent) -> every id exactly once, every row's final value written by an update of that row. Every reply must have its own statement's shape (column count, ids of the requested group). A watchdog reports a run in which no call completed for 120 s. Non-trivial = a run with at least two calls overlapping in real time, one of them a write."
 
 var assumptions = []string{
 	"schedules are whatever the Go runtime produces; not reproducible by seed (the recorded history is the reproducible unit; replay re-checks it and re-runs the workload)",
@@ -456,7 +475,22 @@ func TestConcurrent(t *testing.T) {
 		if r.Family != "C" {
 			r.SeqPct = []int{0, 0, 50, 100}[rng.Intn(4)]
 		}
-		if r.Family != "B" && rng.Intn(4) == 0 {
+		if r.Family == "A" && (rng.Intn(4) == 0 || os.Getenv("VERIF_C12_PRESSURE") != "") {
+			// a table of several dozen pages in a pool that cannot hold it, read and updated through sequential scans: the clients
+			// evict each other's (dirty) pages all the time
+			r.Clients, r.OpsPer, r.Rows, r.Pad, r.KB, r.SQLTable, r.SeqPct = 6+rng.Intn(7), 5+rng.Intn(4), 600, 150, 200, false, 100
+			if rng.Intn(2) == 0 {
+				// no index pages at all, the pool a few frames per running statement (at least 4: a statement pins at most three pages at a time)
+				r.NoIdx = true
+				r.Clients = 4 + rng.Intn(5)
+				r.KB = 16 * r.Clients
+			}
+			if v := os.Getenv("VERIF_C12_PRESSURE"); v != "" { // development: "clients,kb,noidx"
+				var ni int
+				fmt.Sscanf(v, "%d,%d,%d", &r.Clients, &r.KB, &ni)
+				r.NoIdx = ni != 0
+			}
+		} else if r.Family != "B" && rng.Intn(4) == 0 {
 			// many more callers than worker slots (the request manager runs at most 24 statements at a time): long queues
 			// while statements are aborted and retried
 			r.Clients, r.OpsPer = 48+rng.Intn(49), 4+rng.Intn(6)
